@@ -66,5 +66,12 @@ CLAIMS = {
           'four builds {serde off,on} x {hooks off,on} must print identical Debug renderings and errors.',
   'note': 'serde/serde_json themselves are trusted to implement the derive conventions the generator encodes; that assumption is what the byte-for-byte comparison exercises.',
  },
+ 'C19': {
+  'category': 'proof',
+  'technique': 'pure-function Lean model (isolation lemmas) + static scan of /repo/src for shared mutable state + 16-thread / repeated-run differential against the model',
+  'text': 'In the model parsers are values and entry points are functions, so determinism and isolation hold by construction (step_isolated, history_independent). What is decided about the code: (1) a scan of /repo/src on every run finds no static, thread_local, lazy/once cell, interior mutability or unsafe other than next_nstr outside cfg(test)/cfg(gosyn_verif) - the fact that licenses modelling the parser as a function; '
+          '(2) 16 threads parse the whole stream in shuffled orders in one process and every per-input result is identical on all threads, to a sequential run, to a second pass in the same process, and to the Lean model. Streams include twin-character inputs (code points agreeing in their low 16 bits / low byte) aimed at truncating caches. Partial: schedules are the ones the OS produced.',
+  'note': 'A data race that does not manifest in the observed schedules is not exhibited; the static scan is textual.',
+ },
 }
 NOT_CLAIMED = {}
